@@ -23,6 +23,7 @@ import (
 
 type crashShape struct {
 	Nodes, Count, Prior int
+	Sample              int `json:"sample,omitempty"` // >0: large shape, only a handful of crash points (after the allocation phase, around the first instance)
 	Bind                bool
 	Strategy            string
 }
@@ -337,9 +338,11 @@ func finishIDs(c *crashCase) {
 
 func crashShapes() []crashShape {
 	if !hx.Thorough() {
-		return []crashShape{{Nodes: 2, Count: 3, Prior: 1, Bind: true, Strategy: "AUTO"}, {Nodes: 1, Count: 1, Prior: 0, Bind: false, Strategy: "AUTO"}}
+		return []crashShape{{Nodes: 2, Count: 3, Prior: 1, Bind: true, Strategy: "AUTO"}, {Nodes: 1, Count: 1, Prior: 0, Bind: false, Strategy: "AUTO"},
+			// a LARGE pod: the allocate-workload event lists 24 candidate nodes, every one must be repaired
+			{Nodes: 24, Count: 1, Prior: 0, Bind: false, Strategy: "EACH", Sample: 4}}
 	}
-	out := []crashShape{}
+	out := []crashShape{{Nodes: 24, Count: 1, Strategy: "EACH", Sample: 6}, {Nodes: 30, Count: 40, Prior: 3, Strategy: "AUTO", Sample: 6}}
 	for n := 1; n <= 3; n++ {
 		for c := 1; c <= 3; c++ {
 			for _, prior := range []int{0, 2} {
@@ -367,6 +370,9 @@ func genCrash(t *testing.T, out *hx.Out, budget int) {
 		rig := newCrashRig(t, sh, fmt.Sprintf("s%d", si))
 		pts := rig.crashPoints()
 		first := pts[1]
+		if sh.Sample > 0 {
+			pts = samplePoints(pts, sh.Sample)
+		}
 		for pi, a := range pts {
 			if n >= budget {
 				break
@@ -381,6 +387,38 @@ func genCrash(t *testing.T, out *hx.Out, budget int) {
 		}
 		rig.cl.Close()
 	}
+}
+
+// samplePoints picks a few crash points of a large deployment: after the last marker was created
+// (every node allocated, nothing recorded yet), after the first container / first record, and evenly spread ones.
+func samplePoints(pts []*ckit.Addr, k int) []*ckit.Addr {
+	out := []*ckit.Addr{}
+	lastOf := func(kind string) *ckit.Addr {
+		var r *ckit.Addr
+		for _, a := range pts {
+			if a != nil && a.Kind == kind {
+				r = a
+			}
+		}
+		return r
+	}
+	firstOf := func(kind string) *ckit.Addr {
+		for _, a := range pts {
+			if a != nil && a.Kind == kind {
+				return a
+			}
+		}
+		return nil
+	}
+	for _, a := range []*ckit.Addr{lastOf("storeCreateProcessing"), firstOf("walLog:create-workload"), firstOf("storeAddWorkload"), lastOf("storeAddWorkload")} {
+		if a != nil && len(out) < k {
+			out = append(out, a)
+		}
+	}
+	for i := 1; len(out) < k && i < k; i++ {
+		out = append(out, pts[i*len(pts)/k])
+	}
+	return out
 }
 
 func replayCrash(t *testing.T, out *hx.Out, path string) {
